@@ -2,7 +2,11 @@
 """Regenerates MANIFEST.json from the table below (keeps it schema-valid at all times)."""
 import json, os
 V = "/verif"
+R_NOTE = "Trusts the Go reference model to state the property (it is ~100 lines written from the statement, not from the implementation) and the instrumented node lambdas to report executions faithfully; native goroutine scheduling is not controlled here (completion-order independence is C03's business); bounds as stated in the evidence rule."
 checks = {
+ "C01": dict(engine="R", technique="explicit enumeration of all graph programs and all branch-outcome sequences within bounds against a Pregel reference model; every model trace replayed on the implementation (trace conformance)",
+   text="All any-predecessor graphs up to renaming within the node/arc bounds (cycles, self-loops, single and multi branches, sub-graphs, pass-throughs, chains), all step limits, and for each all sequences of branch outcomes (DFS over the model's decision points) are replayed on the real implementation with Invoke and Stream; result, error class and the per-superstep execution log must equal the model's. Right level: the run loop is deterministic sequential logic whose state space over a small alphabet can be enumerated completely.",
+   note=R_NOTE, design="3/C01"),
  "C08": dict(engine="S", technique="stateless exhaustive interleaving exploration of the real schema package under a controlled scheduler (iterative preemption bounding + happens-before state caching)",
    text="Every interleaving (within the stated preemption bound, completed exhaustively) of producers, consumers and framework forwarder goroutines on enumerated stream trees is executed on the real implementation and judged by a sequence oracle; deadlock and leaks are decided exactly from the scheduler's thread table. Right level: the property quantifies over schedules of a tiny closed concurrency core.",
    note="Trusts the source rewriter + vsched shim to model Go channel/select/sync semantics; assumes data-race freedom for happens-before caching (races are the business of the free-running -race pass); bounds: <=6 threads, <=3 items per source, preemption bound 2 (3 in thorough).",
